@@ -164,82 +164,77 @@ Prefix(s, i) == IF i = 0 THEN 0 ELSE s[i] + Prefix(s, i - 1)
 ArbReconstruct(p) == [i \in 1..Len(p) |-> ArbPhaseC(p) - Prefix(ArbDet(p), i)]
 
 -----------------------------------------------------------------------------
-(* the lattice *)
+(* the lattice.  Large families are generated by quantification inside Init  *)
+(* (never as materialised sets: TLC's UNION is quadratic); only the small    *)
+(* base sets below are values.                                               *)
 SeqsUpTo(S, n) == UNION {[1..m -> S] : m \in 1..n}
-
-Consts  == {Const(d, v) : d \in ConstDurs, v \in Vals}
-Ramps   == {Ramp(d, a, b) : d \in RampDurs, a \in Vals, b \in Vals}
-Customs == {Custom(s) : s \in SeqsUpTo(CustomVals, CustomMaxLen)}
 
 CompBase == {Const(d, v) : d \in {1, 2}, v \in CompVals}
             \cup {Ramp(d, a, b) : d \in {1, 2, 3}, a \in CompVals, b \in CompVals}
             \cup {Custom(s) : s \in SeqsUpTo(CompVals, 2)}
 TinyBase == {Const(2, v) : v \in TinyVals} \cup {Ramp(3, a, b) : a \in TinyVals, b \in TinyVals}
             \cup {Custom(<<v>>) : v \in TinyVals}
-Pairs   == {Comp(<<x, y>>) : x \in CompBase, y \in CompBase}
-Triples == {Comp(<<x, y, z>>) : x \in TinyBase, y \in TinyBase, z \in TinyBase}
-Nested  == {Comp(<<Comp(<<x, y>>), z>>) : x \in TinyBase, y \in TinyBase, z \in TinyBase}
-           \cup {Comp(<<x, Comp(<<y, z>>)>>) : x \in TinyBase, y \in TinyBase, z \in TinyBase}
-Leaves  == Consts \cup Ramps \cup Customs
-Comps   == Pairs \cup Triples \cup Nested
-
-FWf    == {[f |-> "wf", w |-> w] : w \in Leaves \cup Comps}
-FMul   == {[f |-> "mul", w |-> w, k |-> k] : w \in Leaves, k \in Factors}
-          \cup {[f |-> "mul", w |-> w, k |-> k] : w \in Pairs \cup Nested, k \in CompFactors}
-FIdx   == UNION {{[f |-> "idx", d |-> d, i |-> i] : i \in -(d + 2)..(d + 1)} : d \in IdxDurs}
-FSlice == UNION {{[f |-> "slice", d |-> d, st |-> st, sp |-> sp] :
-                    st \in {NoneV} \cup -(d + 2)..(d + 2), sp \in {NoneV} \cup -(d + 2)..(d + 2)} :
-                 d \in IdxDurs}
-FChDur == {[f |-> "chdur", w |-> w, nd |-> nd] : w \in Consts, nd \in NewDurs}
-          \cup {[f |-> "chdur", w |-> w, nd |-> nd] : w \in Ramps, nd \in NewDurs \cap RampDurs}
-EqSet  == CompBase \cup {Comp(<<x, y>>) : x \in TinyBase, y \in TinyBase}
-FEq    == {[f |-> "eq", w |-> w, v |-> v] : w \in EqSet, v \in EqSet}
-IVals  == UNION {[1..n -> InterpVals] : n \in 2..InterpMaxLen}
-FInterp == {[f |-> "interp", d |-> d, vals |-> v, ts |-> <<>>, nd |-> nd] :
-              d \in InterpDurs, v \in IVals, nd \in InterpNewDurs}
-           \cup UNION {{[f |-> "interp", d |-> d, vals |-> v, ts |-> t, nd |-> nd] :
-                           d \in InterpDurs, v \in [1..Len(t) -> InterpVals], nd \in InterpNewDurs} :
-                        t \in TimeSets}
-FDur   == {[f |-> "dur", cls |-> c, d |-> d, var |-> v] :
-             c \in {"const", "ramp", "custom", "comp", "interp", "blackman", "kaiser"},
-             d \in 1..AllDurMax, v \in 1..DurVariants}
+TinyPairs == {Comp(<<x, y>>) : x \in TinyBase, y \in TinyBase}
+EqSet  == CompBase \cup TinyPairs
 AmpSet == CompBase
 DetSet == {Const(d, v) : d \in {1, 2, 3}, v \in {-3, 2}} \cup {Ramp(3, -3, 2), Custom(<<2, -3>>), Custom(<<0>>)}
-FPulse == {[f |-> "pulse", amp |-> a, det |-> dt, ph |-> p, pps |-> 0] :
-             a \in AmpSet, dt \in DetSet, p \in {0, 3}}
-          \cup {[f |-> "pulse", amp |-> a, det |-> Const(2, -3), ph |-> p, pps |-> q] :
-             a \in {Const(2, 2), Ramp(2, 0, 2)}, p \in PhaseUnits, q \in PpsUnits}
-FPhase == {[f |-> "phase", cls |-> c, d |-> d] : c \in PhaseSpecial, d \in {1, 4}}
-ArbSet == {Custom(s) : s \in SeqsUpTo(ArbVals, ArbMaxLen)} \cup CompBase \cup Ramps
-          \cup {Comp(<<x, y>>) : x \in TinyBase, y \in TinyBase}
-FArb   == {[f |-> "arb", p |-> p] : p \in ArbSet}
-FWin   == {[f |-> "win", cls |-> c, d |-> d, area |-> a, beta |-> b] :
-             c \in {"blackman"}, d \in WinDurs, a \in WinAreas, b \in {0}}
-          \cup {[f |-> "win", cls |-> c, d |-> d, area |-> a, beta |-> b] :
-             c \in {"kaiser"}, d \in WinDurs, a \in WinAreas, b \in Betas}
+Classes == {"const", "ramp", "custom", "comp", "interp", "blackman", "kaiser"}
 (* family "maxval": maximum value m/4 rad/us, area a/32 rad, both signs;    *)
 (* the window lasts about 1000*area/(0.42*max) ns: bounded by MaxDur        *)
-MaxOK(m, a) == a * 1000 * 4 * 100 <= MaxDur * m * 32 * 42
-FMax   == {[f |-> "maxval", cls |-> "blackman", m |-> m, a |-> a, sg |-> sg, beta |-> 0] :
-             m \in MaxVals, a \in MaxAreas, sg \in {1, -1}}
-          \cup {[f |-> "maxval", cls |-> "kaiser", m |-> m, a |-> a, sg |-> sg, beta |-> b] :
-             m \in MaxVals, a \in MaxAreas, sg \in {1, -1}, b \in Betas}
+MaxOK(m, a) == a * 6250 <= MaxDur * m * 21    \* a/32*1000/(0.42*m/4) <= MaxDur, 32-bit safe
+
+GenConsts(P(_))  == \E d \in ConstDurs, v \in Vals : P(Const(d, v))
+GenRamps(P(_))   == \E d \in RampDurs, a \in Vals, b \in Vals : P(Ramp(d, a, b))
+GenCustoms(P(_)) == \E n \in 1..CustomMaxLen : \E s \in [1..n -> CustomVals] : P(Custom(s))
+GenLeaves(P(_))  == GenConsts(P) \/ GenRamps(P) \/ GenCustoms(P)
+GenPairs(P(_))   == \E x \in CompBase, y \in CompBase : P(Comp(<<x, y>>))
+GenTriples(P(_)) == \E x \in TinyBase, y \in TinyBase, z \in TinyBase : P(Comp(<<x, y, z>>))
+GenNested(P(_))  == \E x \in TinyBase, y \in TinyBase, z \in TinyBase :
+                       P(Comp(<<Comp(<<x, y>>), z>>)) \/ P(Comp(<<x, Comp(<<y, z>>)>>))
+GenArb(P(_))     == \/ \E n \in 1..ArbMaxLen : \E s \in [1..n -> ArbVals] : P(Custom(s))
+                    \/ \E w \in CompBase \cup TinyPairs : P(w)
+                    \/ GenRamps(P)
 
 VARIABLE pt
 On(f) == f \in Fams
-Init == \/ On("wf") /\ pt \in FWf
-        \/ On("mul") /\ pt \in FMul
-        \/ On("idx") /\ pt \in FIdx
-        \/ On("slice") /\ pt \in FSlice
-        \/ On("chdur") /\ pt \in FChDur
-        \/ On("eq") /\ pt \in FEq
-        \/ On("interp") /\ pt \in FInterp
-        \/ On("dur") /\ pt \in FDur
-        \/ On("pulse") /\ pt \in FPulse
-        \/ On("phase") /\ pt \in FPhase
-        \/ On("arb") /\ pt \in FArb
-        \/ On("win") /\ pt \in FWin
-        \/ On("maxval") /\ pt \in {p \in FMax : MaxOK(p.m, p.a)}
+Init ==
+  \/ On("wf") /\ \/ GenLeaves(LAMBDA w : pt = [f |-> "wf", w |-> w])
+                 \/ GenPairs(LAMBDA w : pt = [f |-> "wf", w |-> w])
+                 \/ GenTriples(LAMBDA w : pt = [f |-> "wf", w |-> w])
+                 \/ GenNested(LAMBDA w : pt = [f |-> "wf", w |-> w])
+  \/ On("mul") /\ \/ \E k \in Factors : GenLeaves(LAMBDA w : pt = [f |-> "mul", w |-> w, k |-> k])
+                  \/ \E k \in CompFactors : GenPairs(LAMBDA w : pt = [f |-> "mul", w |-> w, k |-> k])
+                  \/ \E k \in CompFactors : GenNested(LAMBDA w : pt = [f |-> "mul", w |-> w, k |-> k])
+  \/ On("idx") /\ \E d \in IdxDurs : \E i \in -(d + 2)..(d + 1) : pt = [f |-> "idx", d |-> d, i |-> i]
+  \/ On("slice") /\ \E d \in IdxDurs :
+         \E st \in {NoneV} \cup -(d + 2)..(d + 2), sp \in {NoneV} \cup -(d + 2)..(d + 2) :
+            pt = [f |-> "slice", d |-> d, st |-> st, sp |-> sp]
+  \/ On("chdur") /\ \/ \E nd \in NewDurs : GenConsts(LAMBDA w : pt = [f |-> "chdur", w |-> w, nd |-> nd])
+                    \/ \E nd \in NewDurs \cap RampDurs : GenRamps(LAMBDA w : pt = [f |-> "chdur", w |-> w, nd |-> nd])
+  \/ On("eq") /\ \E w \in EqSet, v \in EqSet : pt = [f |-> "eq", w |-> w, v |-> v]
+  \/ On("interp") /\
+        \/ \E d \in InterpDurs, n \in 2..InterpMaxLen, nd \in InterpNewDurs : \E v \in [1..n -> InterpVals] :
+              pt = [f |-> "interp", d |-> d, vals |-> v, ts |-> <<>>, nd |-> nd]
+        \/ \E d \in InterpDurs, t \in TimeSets, nd \in InterpNewDurs : \E v \in [1..Len(t) -> InterpVals] :
+              pt = [f |-> "interp", d |-> d, vals |-> v, ts |-> t, nd |-> nd]
+  \/ On("dur") /\ \E c \in Classes, d \in 1..AllDurMax, v \in 1..DurVariants :
+         pt = [f |-> "dur", cls |-> c, d |-> d, var |-> v]
+  \/ On("pulse") /\
+        \/ \E a \in AmpSet, dt \in DetSet, p \in {0, 3} :
+              pt = [f |-> "pulse", amp |-> a, det |-> dt, ph |-> p, pps |-> 0]
+        \/ \E a \in {Const(2, 2), Ramp(2, 0, 2)}, p \in PhaseUnits, q \in PpsUnits :
+              (p \notin {0, 3} \/ q # 0 \/ a \notin AmpSet) /\
+              pt = [f |-> "pulse", amp |-> a, det |-> Const(2, -3), ph |-> p, pps |-> q]
+  \/ On("phase") /\ \E c \in PhaseSpecial, d \in {1, 4} : pt = [f |-> "phase", cls |-> c, d |-> d]
+  \/ On("arb") /\ GenArb(LAMBDA w : pt = [f |-> "arb", p |-> w])
+  \/ On("win") /\
+        \/ \E d \in WinDurs, a \in WinAreas :
+              pt = [f |-> "win", cls |-> "blackman", d |-> d, area |-> a, beta |-> 0]
+        \/ \E d \in WinDurs, a \in WinAreas, b \in Betas :
+              pt = [f |-> "win", cls |-> "kaiser", d |-> d, area |-> a, beta |-> b]
+  \/ On("maxval") /\ \E m \in MaxVals, a \in MaxAreas, sg \in {1, -1} : MaxOK(m, a) /\
+        \/ pt = [f |-> "maxval", cls |-> "blackman", m |-> m, a |-> a, sg |-> sg, beta |-> 0]
+        \/ \E b \in Betas : pt = [f |-> "maxval", cls |-> "kaiser", m |-> m, a |-> a, sg |-> sg, beta |-> b]
 Next == UNCHANGED pt
 Spec == Init /\ [][Next]_pt
 
